@@ -7,3 +7,6 @@ pub(crate) use arc::*;
 mod rc;
 #[cfg(feature = "rc")]
 pub(crate) use rc::*;
+
+#[cfg(all(koto_verif, feature = "arc"))]
+pub use arc::verif_sched;
